@@ -17,6 +17,7 @@ import (
 	"github.com/AdguardTeam/AdGuardDNS/internal/access"
 	"github.com/AdguardTeam/AdGuardDNS/internal/agd"
 	"github.com/AdguardTeam/AdGuardDNS/internal/agdpasswd"
+	"github.com/AdguardTeam/AdGuardDNS/internal/cmd"
 	"github.com/AdguardTeam/AdGuardDNS/internal/dnsmsg"
 	"github.com/AdguardTeam/AdGuardDNS/internal/dnsserver"
 	"github.com/AdguardTeam/AdGuardDNS/internal/filter"
@@ -52,6 +53,7 @@ func main() {
 	vtimeExhaustive(o, r, m)
 	concCampaign(o, r, m)
 	consulCampaign(o, r, m)
+	glueCampaigns(o, r, m)
 	timedCampaign(o, r, m)
 	crossCampaign(o, r, m)
 	backoffExpiryFinding(o, r)
@@ -203,6 +205,19 @@ type bcfg struct {
 	allow            []netip.Prefix
 	// dyn is the initial dynamic part of the allowlist.
 	dyn []netip.Prefix
+	// yaml: build the limiter the way the service does — the `ratelimit` section
+	// of a configuration file parsed by internal/cmd and converted by
+	// rateLimitConfig.toInternal — instead of filling BackoffConfig directly.
+	yaml bool
+}
+
+// yamlText renders c as the `ratelimit` section of a configuration file.
+func (c *bcfg) yamlText() string {
+	return fmt.Sprintf("ratelimit:\n  allowlist:\n    type: consul\n    refresh_interval: 1h\n"+
+		"  ipv4:\n    count: %d\n    interval: %s\n    subnet_key_len: %d\n"+
+		"  ipv6:\n    count: %d\n    interval: %s\n    subnet_key_len: %d\n"+
+		"  response_size_estimate: %dB\n  backoff_count: %d\n  backoff_duration: %s\n  backoff_period: %s\n  refuse_any: %v\n",
+		c.c4, c.i4, c.l4, c.c6, c.i6, c.l6, c.est, c.count, c.duration, c.period, c.refuseAny)
 }
 
 func dynLine(nets []netip.Prefix) string {
@@ -224,6 +239,12 @@ func (c *bcfg) real() *ratelimit.Backoff {
 // the limiter is in use.
 func (c *bcfg) realDyn() (*ratelimit.Backoff, *ratelimit.DynamicAllowlist) {
 	al := ratelimit.NewDynamicAllowlist(c.allow, c.dyn)
+	if c.yaml {
+		v, err := cmd.VerifC20Parse([]byte(c.yamlText()))
+		hlib.Must(err)
+
+		return v.VerifC20Backoff(al), al
+	}
 
 	return ratelimit.NewBackoff(&ratelimit.BackoffConfig{
 		Allowlist:            al,
@@ -248,6 +269,11 @@ func addrArgs(ip netip.Addr) string {
 }
 
 func prefArgs(p netip.Prefix) string {
+	if !p.IsValid() {
+		// An invalid network: a length beyond any family's width.
+		return "0 0 999"
+	}
+
 	return fmt.Sprintf("%s %d", addrArgs(p.Addr()), p.Bits())
 }
 
@@ -315,6 +341,12 @@ func genAddr(rng *rand.Rand) netip.Addr {
 		return netip.AddrFrom16([16]byte{10: 0xff, 11: 0xff, 12: 10, 13: 0, 14: 0, 15: byte(rng.IntN(2))})
 	}
 
+	if rng.IntN(6) == 0 {
+		// A zoned client address (link-local traffic carries the interface name);
+		// networks have no zones, so the zone must not matter for any verdict.
+		return netip.AddrFrom16(b).WithZone([]string{"eth0", "eth1"}[rng.IntN(2)])
+	}
+
 	return netip.AddrFrom16(b)
 }
 
@@ -323,6 +355,21 @@ func genPrefix(rng *rand.Rand) netip.Prefix {
 	bits := []int{8, 16, 24, 30, 32}[rng.IntN(5)]
 	if !a.Is4() {
 		bits = []int{16, 32, 48, 64, 120, 128}[rng.IntN(6)]
+	}
+	switch rng.IntN(16) {
+	case 0:
+		// The whole family.
+		return netip.PrefixFrom(a.WithZone(""), 0)
+	case 1:
+		// Host bits not masked off (legal in the backend's CIDR ranges).
+		return netip.PrefixFrom(a.WithZone(""), bits)
+	case 2:
+		// A length that does not fit the family: an invalid network, which
+		// contains nothing (backend CIDR ranges are converted unchecked).
+		return netip.PrefixFrom(a.WithZone(""), a.BitLen()+8)
+	case 3:
+		// A single host.
+		return netip.PrefixFrom(a.WithZone(""), a.BitLen())
 	}
 	p, err := a.Prefix(bits)
 	hlib.Must(err)
@@ -348,6 +395,21 @@ type bev struct {
 	respLen int
 }
 
+// addECS attaches a well-formed EDNS Client Subnet option for ip's /24 or /56.
+func addECS(m *dns.Msg, ip netip.Addr) {
+	ip = ip.Unmap().WithZone("")
+	fam, bits := uint16(1), 24
+	if !ip.Is4() {
+		fam, bits = 2, 56
+	}
+	p, err := ip.Prefix(bits)
+	hlib.Must(err)
+	opt := &dns.OPT{Hdr: dns.RR_Header{Name: ".", Rrtype: dns.TypeOPT, Class: 1232}}
+	opt.Option = append(opt.Option, &dns.EDNS0_SUBNET{Code: dns.EDNS0SUBNET, Family: fam, SourceNetmask: uint8(bits),
+		Address: p.Addr().AsSlice()})
+	m.Extra = append(m.Extra, opt)
+}
+
 func mkReq(qt uint16) *dns.Msg {
 	m := &dns.Msg{}
 	m.SetQuestion("example.org.", qt)
@@ -355,13 +417,33 @@ func mkReq(qt uint16) *dns.Msg {
 	return m
 }
 
+// respSeq makes successive responses take different forms (deterministically, so
+// that replays are stable): what a response weighs depends on its length only,
+// not on its response code, flags or on the section its records sit in.
+var respSeq int
+
 // mkResp builds a response of exactly l bytes (for l >= 54; the smallest
-// message otherwise).
+// message otherwise) in one of five forms: NOERROR with answers, NXDOMAIN with
+// the records in the authority section, SERVFAIL with them in the additional
+// section, a truncated REFUSED, NOERROR with the AD and RA bits.
 func mkResp(qt uint16, l int) *dns.Msg {
+	respSeq++
+	form := respSeq % 5
 	m := mkReq(qt)
 	m.Response = true
+	sec := &m.Answer
+	switch form {
+	case 1:
+		m.Rcode, sec = dns.RcodeNameError, &m.Ns
+	case 2:
+		m.Rcode, sec = dns.RcodeServerFailure, &m.Extra
+	case 3:
+		m.Rcode, m.Truncated = dns.RcodeRefused, true
+	case 4:
+		m.AuthenticatedData, m.RecursionAvailable = true, true
+	}
 	txt := func(n int) {
-		m.Answer = append(m.Answer, &dns.TXT{
+		*sec = append(*sec, &dns.TXT{
 			Hdr: dns.RR_Header{Name: "example.org.", Rrtype: dns.TypeTXT, Class: dns.ClassINET, Ttl: 10},
 			Txt: []string{strings.Repeat("x", n)},
 		})
@@ -641,7 +723,7 @@ func mwCampaign(o *hlib.Opts, r *hlib.Result, m *hlib.Model) {
 		ref.dynamic = c.dyn
 		var refP *refProfile
 		refOK := true
-		var pend *pending
+		var pend, anyProf *pending
 		var shift int64
 		profIP := netip.MustParseAddr("10.0.0.1")
 		var profLim agd.Ratelimiter = agd.GlobalRatelimiter{}
@@ -751,7 +833,17 @@ func mwCampaign(o *hlib.Opts, r *hlib.Result, m *hlib.Model) {
 				r.Count("mw.proto=" + srv.Protocol.String())
 			}
 			now := spin() + shift
-			sreq := &stack.Req{Server: srv, Msg: mkReq(qt), Remote: netip.AddrPortFrom(ip, 1234),
+			msg := mkReq(qt)
+			if rng.IntN(6) == 0 {
+				// A well-formed EDNS Client Subnet option naming somebody else's
+				// network: the limiter must keep judging the real client address.
+				addECS(msg, genAddr(rng))
+				r.Count("mw.ecs_request")
+			}
+			if ip.Zone() != "" {
+				r.Count("mw.zoned_client")
+			}
+			sreq := &stack.Req{Server: srv, Msg: msg, Remote: netip.AddrPortFrom(ip, 1234),
 				Local: netip.MustParseAddrPort("192.0.2.2:53")}
 			if srv.Protocol == agd.ProtoDoH {
 				sreq.ReqInfo = &dnsserver.RequestInfo{URL: &url.URL{Path: "/dns-query"}}
@@ -818,6 +910,15 @@ func mwCampaign(o *hlib.Opts, r *hlib.Result, m *hlib.Model) {
 					case "pass":
 						how = "the profile's own limit applies and is not exhausted"
 						refP.countResp(now, eff, countLen)
+						if c.refuseAny && qt == dns.TypeANY && got == "served" {
+							// The statement: ANY queries are dropped for everyone when
+							// refusal is configured.  Recorded deviation: a client
+							// covered by its profile's own limit is never asked.
+							r.Count("mw.any_served_under_profile_limit")
+							anyProf = newPending("refuse-any-bypassed-by-profile-limit", fmt.Sprintf(
+								"ANY refusal is configured, yet the ANY query %d from %s (plain DNS, profile with its own limit of %d rps covering the client) was answered",
+								j, eff, refP.rps), map[string]any{"campaign": "mw", "ops": append([]string{}, lines...), "expected": "dropped"})
+						}
 					default:
 						v, why, inWin := ref.check(now, eff, qt)
 						how = refWhy(v, why, inWin, limitText(c, eff))
@@ -851,6 +952,7 @@ func mwCampaign(o *hlib.Opts, r *hlib.Result, m *hlib.Model) {
 			r.Count("mw.vt_cases")
 		}
 		pend.raise(r)
+		anyProf.raise(r)
 		answers := m.Batch(lines)[pre:]
 		for j := range gots {
 			want := answers[j]
@@ -914,13 +1016,7 @@ func profLimCampaign(o *hlib.Opts, r *hlib.Result, m *hlib.Model) {
 			if len(rc.ClientSubnets) == 0 {
 				return true
 			}
-			for _, p := range rc.ClientSubnets {
-				if p.Contains(ip) {
-					return true
-				}
-			}
-
-			return false
+			return anyNetHas(rc.ClientSubnets, ip)
 		}
 		profLine := fmt.Sprintf("prof %d %d", rc.RPS, est)
 		for _, p := range rc.ClientSubnets {
